@@ -158,7 +158,8 @@ def family_run(ctx, monitors, n_cases, profiles=PROFILES, procs=14, corpus=None,
     pjobs = [(ctx.seed + seed_offset, i, monitors, scratch) for i in range(n_parsed)]
     # lazily parsed runs: the selections rotate with the seed
     # (the mixed-set selection is expanded lazily in every run: one node must serve both of its roles)
-    lazy_idx = ([travparsed.MIXED_SETS, travparsed.RESTRICTED_WORKER] if n_lazyparsed else []) + \
+    lazy_idx = ([travparsed.MIXED_SETS, travparsed.RESTRICTED_WORKER, travparsed.PARTLY_INCOMPATIBLE,
+                 travparsed.MIXED_SETS_4] if n_lazyparsed else []) + \
                [5 * (ctx.seed + seed_offset) + 3 * i for i in range(max(0, n_lazyparsed - 1))]
     pjobs += [(ctx.seed + seed_offset, i, monitors, scratch, True) for i in lazy_idx]
     with multiprocessing.get_context("fork").Pool(procs) as pool:
